@@ -197,6 +197,9 @@ func (s *SimFS) touched(i int) {
 			continue
 		}
 		e.Step = now
+		if e.StallUnlocks > 0 {
+			simrt.StallCurrentAfterUnlocks(e.StallUnlocks)
+		}
 		// keep the list sorted by step: move the fired edit in front of the later and the unfired ones
 		for j := k; j > 0 && s.edits[j-1].Step > s.edits[j].Step; j-- {
 			s.edits[j-1], s.edits[j] = s.edits[j], s.edits[j-1]
